@@ -286,11 +286,14 @@ def part_packages(chk, fns, decls, paths, name_field):
             bad.append(And(o.cond(), Not(okc)))
         r, m = chk.obligation(f'packages() callback with {pre} existing key(s): own package skipped, foreign package recorded once', list(eng.assumptions) + [Or(bad)])
         if r == 'sat':
-            src = 'package a:b; import x: a:b/i; import y: ref:pkg/i;'
-            nat = chk.native({'op': 'discover', 'source': src})
-            if nat.get('packages') == ['ref:pkg']:
-                raise Inconclusive(f'packages() callback model does not reproduce natively: {nat}')
-            chk.finding('packages-callback', f'wac_resolver::packages records the wrong set; native on `{src}`: {nat}', {'op': 'discover', 'source': src})
+            confirmed = None
+            for src in ('package a:b; import x: a:b/i; import y: ref:pkg/i;', 'package a:b@1.0.0; import x: a:b/i; import y: ref:pkg/i;',
+                        'package a:b@1.0.0 targets a:b/w; import y: ref:pkg/i;', 'package a:b; import x: ref:pkg/i; import y: ref:pkg/j;'):
+                nat = chk.native({'op': 'discover', 'source': src})
+                if nat.get('packages') != ['ref:pkg']: confirmed = (src, nat); break
+            if confirmed is None:
+                raise Inconclusive(f'packages() callback model does not reproduce natively on the candidate documents')
+            chk.finding('packages-callback', f'wac_resolver::packages records the wrong set; native on `{confirmed[0]}`: {confirmed[1]} (expected only ref:pkg)', {'op': 'discover', 'source': confirmed[0]})
     # end-to-end native sanity of the composition on one document per position (translator validation)
     for path, tname in paths:
         if show(path) == '.directive.package': continue
